@@ -201,32 +201,50 @@ Definition code_point (st : tstate) : Prop :=
 Definition blank (c : ascii) : Prop := c = SP \/ c = TAB.
 
 (* cbn does not evaluate is_ws (nat arithmetic) on character literals *)
-Ltac ws_eval :=
-  repeat match goal with
-  | |- context [is_ws (Ascii ?a ?b ?c ?d ?e ?f ?g ?h)] =>
-      let v := eval vm_compute in (is_ws (Ascii a b c d e f g h)) in
-      change (is_ws (Ascii a b c d e f g h)) with v
-  end.
-Ltac crunch := cbn; repeat (progress ws_eval; cbn).
+Lemma ws_sp : is_ws " "%char = true. Proof. vm_compute. reflexivity. Qed.
+Lemma ws_tab : is_ws "009"%char = true. Proof. vm_compute. reflexivity. Qed.
+Lemma ws_slash : is_ws "/"%char = false. Proof. vm_compute. reflexivity. Qed.
+Ltac ws_eval := rewrite ?ws_sp, ?ws_tab, ?ws_slash.
+Local Arguments append_token : simpl never.
 
-(* after ` //` resp. `//`: both in the comment, or the same diagnostic *)
+Ltac norm_state :=
+  cbv beta iota;
+  cbn [set_pos set_slash set_gap set_ev set_incmt set_kind set_tstr set_esc set_allowsc set_preg start_token set_quote
+       set_paren push_tokens set_out push_char tail_str s_line s_col s_kind s_tstr s_tpos s_quote s_esc s_paren s_pcount
+       s_instr s_incmt s_slash s_allowsc s_kws s_lkws s_gap s_pglued s_ev app rev negb].
+(* one character: the equation `step s c = <result>` is proved on its own (the result is found by evaluation) *)
+Ltac step1_with tac :=
+  cbn [run];
+  lazymatch goal with
+  | |- context [step mt cf es ?s ?c] =>
+      let E := fresh "E" in
+      eassert (E : step mt cf es s c = _)
+        by (unfold step, parse_kw_op, parse_none, parse_newline; repeat (progress (cbn; ws_eval; tac)); reflexivity);
+      rewrite E; clear E; norm_state
+  end.
+Ltac step1 := step1_with idtac.
+Ltac done_cmt := cbn [run]; unfold res_rel, cmt_eq, forget_col; cbn; (split; [reflexivity|split; reflexivity]).
+
 Lemma enter_comment st c : code_point st -> blank c ->
   res_rel cmt_eq (run mt cf es st [c; SLASH; SLASH]) (run mt cf es st [SLASH; SLASH]).
 Proof.
   intros ([K|[K|K]] & S & P) Hc; destruct st; cbn in K, S; unfold pend_ok in P; cbn in P; subst.
   - (* nothing pending *)
-    destruct Hc as [-> | ->]; unfold run, step, parse_none; crunch; unfold res_rel, cmt_eq, forget_col; cbn; repeat split.
-  - (* a keyword is pending: the blank resp. the first slash appends it *)
+    destruct Hc as [-> | ->]; do 5 step1; done_cmt.
+  - (* a keyword is pending: the blank resp. the first slash appends it (or both fail in the same way) *)
     destruct s_tstr as [|t0 ts]; [congruence|].
-    destruct Hc as [-> | ->]; unfold run, step, parse_kw_op, parse_none; crunch;
-      match goal with |- context [append_token mt KEYWORD ?s] => destruct (append_token mt KEYWORD s) as [s1|] eqn:Ea end;
-      crunch; try reflexivity;
-      pose proof (append_token_shape mt _ _ _ Ea) as (toks & ->); crunch;
-      unfold res_rel, cmt_eq, forget_col; cbn; (split; [reflexivity|split; reflexivity]).
+    match goal with |- context [run mt cf es ?s _] =>
+      destruct (append_token mt KEYWORD (set_pos s s_line (s_col + 1))) as [s1|] eqn:Ea end; cbn in Ea.
+    + pose proof (append_token_shape mt _ _ _ Ea) as (toks & ->). cbn in Ea.
+      destruct Hc as [-> | ->]; do 5 (step1_with ltac:(rewrite ?Ea)); done_cmt.
+    + destruct Hc as [-> | ->]; do 2 (step1_with ltac:(rewrite ?Ea)); reflexivity.
   - (* an operator is pending: the blank appends it; glued, the second slash does *)
     destruct s_tstr as [|t0 ts]; [congruence|]. destruct s_tpos as [tl tc].
-    destruct Hc as [-> | ->]; unfold run, step, parse_kw_op, parse_none, append_token; crunch;
-      unfold res_rel, cmt_eq, forget_col; cbn; (split; [reflexivity|split; reflexivity]).
+    assert (Ea : forall st0, append_token mt OPERATOR st0 =
+              Ok (push_tokens st0 [mkTok OPERATOR (fst (Layout.s_tpos st0)) (snd (Layout.s_tpos st0)) (rev (Layout.s_tstr st0)) 0 None
+                                         (Layout.s_pglued st0)])).
+    { intros st0. unfold append_token. destruct (Layout.s_tpos st0). reflexivity. }
+    destruct Hc as [-> | ->]; do 5 (step1_with ltac:(rewrite ?Ea)); done_cmt.
 Qed.
 
 Lemma run_app' a : forall b st, run mt cf es st (a ++ b) =
@@ -245,7 +263,7 @@ Proof.
   rewrite !run_app'. pose proof (enter_comment st c Hp Hc) as E.
   destruct (run mt cf es st [c; SLASH; SLASH]) as [a|ea], (run mt cf es st [SLASH; SLASH]) as [b|eb]; cbn in E; try contradiction; [|exact E].
   rewrite !run_app'. destruct (run_cmt body Hb a b E) as (a1 & b1 & -> & -> & E1).
-  destruct (step_cmt_nl a1 b1 E1) as (a2 & b2 & Ea & Eb & E2). cbn. rewrite Ea, Eb. exact E2.
+  destruct (step_cmt_nl a1 b1 E1) as (a2 & b2 & Ea & Eb & E2). cbn [run]. rewrite Ea, Eb. exact E2.
 Qed.
 
 End Glue.
